@@ -1,0 +1,109 @@
+//go:build verif
+
+// Contracts for the deductive checks (comment-only). Properties: C01 (loading is total), C12 (path resolution; symlink step).
+
+package utils
+
+//@ func MapKeys
+//@   nopanic[C01]
+
+//@ func MapsAppend
+//@   nopanic[C01]
+//@   ensures[C01] target == nil ==> result == source
+//@   ensures[C01] target != nil ==> result == target
+//@   ensures[C01] target != nil || source != nil ==> result != nil
+
+//@ func ArrayContains
+//@   nopanic[C01]
+//@   loop 1
+//@     invariant[C01] -1 <= rangeindex && rangeindex < len(toCheck)
+//@     decreases[C01] len(toCheck) - rangeindex
+
+//@ func RemoveDuplicates
+//@   nopanic[C01]
+//@   ensures[C01] result != nil && len(result) <= len(slice)
+//@   loop 1
+//@     invariant[C01] -1 <= rangeindex && rangeindex < len(slice)
+//@     invariant[C01] result != nil && len(result) <= rangeindex + 1
+//@     decreases[C01] len(slice) - rangeindex
+
+// Symlink rewriting of an already absolute watch path (C12: "not decided" part, file-system state). Safety and result shape only.
+//@ func ResolveSymbolicLink
+//@   nopanic[C01,C12]
+//@   ensures[C01,C12] err != nil ==> result == ""
+
+//@ func getSymbolinkLink
+//@   nopanic[C01,C12]
+//@   ensures[C01,C12] err != nil ==> result.0 == "" && result.1 == ""
+//@   loop 1
+//@     invariant[C01] -1 <= rangeindex && rangeindex < len(parts)
+//@     decreases[C01] len(parts) - rangeindex
+
+//@ func isSymbolicLink
+//@   nopanic[C01,C12]
+
+//@ func NewSet
+//@   nopanic[C01]
+//@   ensures[C01] result != nil
+//@   loop 1
+//@     invariant[C01] out != nil
+//@     invariant[C01] -1 <= rangeindex && rangeindex < len(v)
+//@     decreases[C01] len(v) - rangeindex
+
+//@ func (Set).Add
+//@   nopanic[C01]
+//@   requires s != nil
+//@   ensures[C01] has(s, v)
+
+//@ func StringToBool
+//@   nopanic[C01]
+
+//@ func GetAsEqualsMap
+//@   nopanic[C01]
+//@   ensures[C01] result != nil
+//@   loop 1
+//@     invariant[C01] -1 <= rangeindex && rangeindex < len(em)
+//@     invariant[C01] m != nil
+//@     decreases[C01] len(em) - rangeindex
+
+//@ func GetAsStringList
+//@   nopanic[C01]
+//@   ensures[C01] result != nil
+//@   loop 1
+//@     invariant[C01] m != nil
+
+// The remaining Set methods are generic methods with no instantiation in the module: the engine does not build them,
+// so the contracts below are currently NOT checked (no obligations are generated for them).
+//@ func (Set).Has
+//@   nopanic[C01]
+//@   ensures[C01] result <==> has(s, v)
+
+//@ func (Set).AddAll
+//@   nopanic[C01]
+//@   requires s != nil || len(v) == 0
+
+//@ func (Set).Remove
+//@   nopanic[C01]
+
+//@ func (Set).Clear
+//@   nopanic[C01]
+
+//@ func (Set).Elements
+//@   nopanic[C01]
+
+//@ func (Set).RemoveAll
+//@   nopanic[C01]
+
+//@ func (Set).Diff
+//@   nopanic[C01]
+//@   ensures[C01] result != nil
+//@   loop 1
+//@     invariant[C01] out != nil
+
+//@ func (Set).Union
+//@   nopanic[C01]
+//@   ensures[C01] result != nil
+//@   loop 1
+//@     invariant[C01] out != nil
+//@   loop 2
+//@     invariant[C01] out != nil
